@@ -1,3 +1,4 @@
+pub mod c01;
 pub mod c09;
 pub mod c10;
 
@@ -5,6 +6,7 @@ use crate::Ctx;
 
 pub fn run(ctx: &Ctx) -> i32 {
     match ctx.id.as_str() {
+        "C01" => c01::run(ctx),
         "C09" => c09::run(ctx),
         "C10" => c10::run(ctx),
         other => {
@@ -16,6 +18,7 @@ pub fn run(ctx: &Ctx) -> i32 {
 
 pub fn replay(id: &str, payload: &serde_json::Value) -> bool {
     match id {
+        "C01" => c01::replay(payload),
         "C09" => c09::replay(payload),
         "C10" => c10::replay(payload),
         other => {
